@@ -50,6 +50,11 @@ impl BinaryOctetVec {
         self.length
     }
 
+    #[cfg(feature = "verif")]
+    pub fn verif_words(&self) -> (&[u64], usize) {
+        (&self.elements, self.length)
+    }
+
     fn to_octet_vec(&self) -> Vec<u8> {
         let mut word = 0;
         let mut bit = self.padding_bits();
@@ -97,6 +102,18 @@ pub fn fused_addassign_mul_scalar_binary(
     assert_eq!(octets.len(), other.len());
     if octets.is_empty() {
         return;
+    }
+    #[cfg(all(feature = "verif", feature = "std"))]
+    if let Some(isa) = verif_kernels::capped() {
+        if verif_kernels::fused_addassign_mul_scalar_binary(isa, octets, other, scalar) {
+            return;
+        }
+        // no dedicated binary kernel on this ISA: same unpack path as the end of this function
+        if *scalar == Octet::one() {
+            return add_assign(octets, &other.to_octet_vec());
+        } else {
+            return fused_addassign_mul_scalar(octets, &other.to_octet_vec(), scalar);
+        }
     }
     #[cfg(all(any(target_arch = "x86", target_arch = "x86_64"), feature = "std"))]
     {
@@ -614,6 +631,10 @@ unsafe fn mulassign_scalar_ssse3(octets: &mut [u8], scalar: &Octet) {
 
 #[inline]
 pub fn mulassign_scalar(octets: &mut [u8], scalar: &Octet) {
+    #[cfg(all(feature = "verif", feature = "std"))]
+    if let Some(isa) = verif_kernels::capped() {
+        return verif_kernels::mulassign_scalar(isa, octets, scalar);
+    }
     #[cfg(all(any(target_arch = "x86", target_arch = "x86_64"), feature = "std"))]
     {
         if is_x86_feature_detected!("avx512f") && is_x86_feature_detected!("avx512bw") {
@@ -828,6 +849,10 @@ pub fn fused_addassign_mul_scalar(octets: &mut [u8], other: &[u8], scalar: &Octe
     );
 
     assert_eq!(octets.len(), other.len());
+    #[cfg(all(feature = "verif", feature = "std"))]
+    if let Some(isa) = verif_kernels::capped() {
+        return verif_kernels::fused_addassign_mul_scalar(isa, octets, other, scalar);
+    }
     #[cfg(all(any(target_arch = "x86", target_arch = "x86_64"), feature = "std"))]
     {
         if is_x86_feature_detected!("avx512f") && is_x86_feature_detected!("avx512bw") {
@@ -1045,6 +1070,10 @@ unsafe fn add_assign_ssse3(octets: &mut [u8], other: &[u8]) {
 
 #[inline]
 pub fn add_assign(octets: &mut [u8], other: &[u8]) {
+    #[cfg(all(feature = "verif", feature = "std"))]
+    if let Some(isa) = verif_kernels::capped() {
+        return verif_kernels::add_assign(isa, octets, other);
+    }
     #[cfg(all(any(target_arch = "x86", target_arch = "x86_64"), feature = "std"))]
     {
         if is_x86_feature_detected!("avx512f") {
@@ -1081,6 +1110,139 @@ pub fn add_assign(octets: &mut [u8], other: &[u8]) {
         // }
     }
     return add_assign_fallback(octets, other);
+}
+
+// Verification hook: exposes each private kernel individually (C11/C12) and lets the harness cap
+// the instruction set the public dispatchers use (C07). With no cap set (the default) the
+// dispatchers fall through to their original cascade.
+#[cfg(all(feature = "verif", feature = "std"))]
+pub mod verif_kernels {
+    use super::*;
+    use core::sync::atomic::{AtomicU8, Ordering};
+
+    #[derive(Clone, Copy, Debug, PartialEq, Eq, Hash)]
+    pub enum Isa {
+        Avx512,
+        Avx2,
+        Ssse3,
+        Portable,
+    }
+
+    static VERIF_ISA_CAP: AtomicU8 = AtomicU8::new(0);
+
+    pub fn set_cap(isa: Option<Isa>) {
+        let v = match isa {
+            None => 0,
+            Some(Isa::Avx512) => 1,
+            Some(Isa::Avx2) => 2,
+            Some(Isa::Ssse3) => 3,
+            Some(Isa::Portable) => 4,
+        };
+        VERIF_ISA_CAP.store(v, Ordering::SeqCst);
+    }
+
+    #[inline]
+    pub fn capped() -> Option<Isa> {
+        match VERIF_ISA_CAP.load(Ordering::Relaxed) {
+            1 => Some(Isa::Avx512),
+            2 => Some(Isa::Avx2),
+            3 => Some(Isa::Ssse3),
+            4 => Some(Isa::Portable),
+            _ => None,
+        }
+    }
+
+    pub fn supported(isa: Isa) -> bool {
+        #[cfg(any(target_arch = "x86", target_arch = "x86_64"))]
+        {
+            return match isa {
+                Isa::Avx512 => {
+                    is_x86_feature_detected!("avx512f") && is_x86_feature_detected!("avx512bw")
+                }
+                Isa::Avx2 => is_x86_feature_detected!("avx2") && is_x86_feature_detected!("bmi1"),
+                Isa::Ssse3 => is_x86_feature_detected!("ssse3"),
+                Isa::Portable => true,
+            };
+        }
+        #[allow(unreachable_code)]
+        {
+            isa == Isa::Portable
+        }
+    }
+
+    pub fn add_assign(isa: Isa, octets: &mut [u8], other: &[u8]) {
+        assert!(supported(isa));
+        assert_eq!(octets.len(), other.len());
+        #[cfg(any(target_arch = "x86", target_arch = "x86_64"))]
+        unsafe {
+            match isa {
+                Isa::Avx512 => return add_assign_avx512(octets, other),
+                Isa::Avx2 => return add_assign_avx2(octets, other),
+                Isa::Ssse3 => return add_assign_ssse3(octets, other),
+                Isa::Portable => {}
+            }
+        }
+        add_assign_fallback(octets, other)
+    }
+
+    pub fn mulassign_scalar(isa: Isa, octets: &mut [u8], scalar: &Octet) {
+        assert!(supported(isa));
+        #[cfg(any(target_arch = "x86", target_arch = "x86_64"))]
+        unsafe {
+            match isa {
+                Isa::Avx512 => return mulassign_scalar_avx512(octets, scalar),
+                Isa::Avx2 => return mulassign_scalar_avx2(octets, scalar),
+                Isa::Ssse3 => return mulassign_scalar_ssse3(octets, scalar),
+                Isa::Portable => {}
+            }
+        }
+        mulassign_scalar_fallback(octets, scalar)
+    }
+
+    pub fn fused_addassign_mul_scalar(isa: Isa, octets: &mut [u8], other: &[u8], scalar: &Octet) {
+        assert!(supported(isa));
+        assert_eq!(octets.len(), other.len());
+        #[cfg(any(target_arch = "x86", target_arch = "x86_64"))]
+        unsafe {
+            match isa {
+                Isa::Avx512 => return fused_addassign_mul_scalar_avx512(octets, other, scalar),
+                Isa::Avx2 => return fused_addassign_mul_scalar_avx2(octets, other, scalar),
+                Isa::Ssse3 => return fused_addassign_mul_scalar_ssse3(octets, other, scalar),
+                Isa::Portable => {}
+            }
+        }
+        fused_addassign_mul_scalar_fallback(octets, other, scalar)
+    }
+
+    // Returns false when this ISA has no dedicated binary kernel (the dispatcher then uses the
+    // unpack + non-binary path)
+    pub fn fused_addassign_mul_scalar_binary(
+        isa: Isa,
+        octets: &mut [u8],
+        other: &BinaryOctetVec,
+        scalar: &Octet,
+    ) -> bool {
+        assert!(supported(isa));
+        assert_eq!(octets.len(), other.len());
+        if octets.is_empty() {
+            return true;
+        }
+        #[cfg(any(target_arch = "x86", target_arch = "x86_64"))]
+        unsafe {
+            match isa {
+                Isa::Avx512 => {
+                    fused_addassign_mul_scalar_binary_avx512(octets, other, scalar);
+                    return true;
+                }
+                Isa::Avx2 => {
+                    fused_addassign_mul_scalar_binary_avx2(octets, other, scalar);
+                    return true;
+                }
+                _ => {}
+            }
+        }
+        false
+    }
 }
 
 #[cfg(feature = "std")]
